@@ -187,7 +187,13 @@ class EnumMarshaller(AbstractMarshaller[EnumT], tp.Generic[EnumT]):
 
         Args:
             val: The enum instance to marshal.
+
+        Raises:
+            ValueError: If `val` is not an enum member.
         """
+        # Not every object with a `.value` attribute is an enum member.
+        if not isinstance(val, enum.Enum):
+            raise ValueError(f"{val!r} is not a member of {self.t!r}")
         return val.value
 
 
